@@ -77,10 +77,25 @@ def run_shape(shape, tier):
             sel = Selection(obj)
             obs.append(("Selection.predicate <=> supplied", exprsem.z3_of_lib(sel.predicate, zrow) == truth,
                         {"stored": str(sel.predicate)}))
-            # stability of the (cached) set across library calls
-            _ = env.engines["sq"]
+            # stability of the (cached) sets across library calls: selection, compile, and a join that carries the predicate
             _ = it.convert_predicate(sel.predicate)
             _ = sel.columns_required
+            from ..prog import add_abstract_leaf
+            lcols = tuple(sorted(declared | {"a"}))
+            L = add_abstract_leaf(env, "L", lcols if "c" not in lcols else tuple(c for c in lcols if c != "c") or ("a",), "it1", None)
+            R = add_abstract_leaf(env, "R", ("a", "c"), "it1", None)
+            try:
+                if declared <= ({t.qualified_name for t in L.columns} | {"a", "c"}):
+                    j = L.join(R, obj)
+                    _ = j.columns
+                    from lsst.daf.relation import Join
+                    pj = Join(obj).partial(R)
+                    _ = pj.columns_required
+                    _ = Join(obj).partial(L, is_lhs=True).columns_required
+            except Exception as e:  # noqa: BLE001 - typing of the join is not this check's subject
+                notes["join"] = type(e).__name__
+            v_again = conv(obj)(restricted)
+            obs.append(("callable on restricted row after library calls == meaning", zbool(v_again) == truth, {}))
         req2 = obj.columns_required
         obs.append(("columns_required stable", frozenset(req2) == snapshot and frozenset(obj.columns_required) == snapshot, {}))
         return obs
